@@ -455,7 +455,20 @@ func ruleSeqhash(c *Ctx, prop string) {
 		}
 		st := holds
 		why := ""
-		if mt.over != x {
+		if hx := parseOrNil(x); mt.over != x && hx != nil && hx.isCall("strings.ReplaceAll") && len(hx.Args) == 3 && hx.Args[0].String() == mt.over &&
+			func() bool {
+				// the string that is hashed is the string that was checked with one letter respelt as another
+				// (U -> T), and the alphabet the check uses holds both letters: the verdict is the same
+				from, ok1 := hx.Args[1].constStr()
+				to, ok2 := hx.Args[2].constStr()
+				al := mt.alpha
+				if k, isK := parseOrNil(al).constStr(); isK {
+					al = k
+				}
+				return ok1 && ok2 && from != "" && to != "" && strings.Contains(al, from) && strings.Contains(al, to)
+			}() {
+			// held: falls through with st == holds
+		} else if mt.over != x {
 			st = unknown
 			if ot := parseOrNil(mt.over); ot != nil && ot.contains(func(y *Term) bool {
 				if y.Op != "phi" || len(y.Args) < 2 {
